@@ -515,30 +515,45 @@ def dot_at_read_start(body, chunks):
     return False
 
 
+def unstuffed_dot_region(case):
+    """Region predicate over a whole case (body, chunks, seg) of the classes
+    whose client is the real SMTPClient: parts('C40').unstuffed_dot_region(case)."""
+    return dot_at_read_start(case[0], case[1])
+
+
 def has_dot_line(body):
     return any(ln[:1] == b"." for ln in ref_lines(body))
 
 
-LINE_TOKENS = (b"", b".", b"..", b".a", b"a", b"a.", b"QUIT", b"H: .")
+LINE_TOKENS = (b"", b".", b"..", b".a", b"a", b"a.", b"QUIT", b"H: .", b" .", b". ")
 HEADER_PREFIX = b"Subject: s\n\n"
 
 
-def random_body(rng, k):
-    """A body rich in dot-lines, several of them aligned on multiples of k (the
-    uniform read size), one optionally at the very start."""
+def random_body(rng, k, mode):
+    """A body rich in dot-lines.  mode "aligned": many dot-lines start on
+    multiples of k (the uniform read size) and one may open the body; mode
+    "elsewhere" (k >= 2): the body opens with a non-dot line and every dot-line
+    starts strictly inside a read; mode "mixed": no alignment is arranged."""
     kinds = (b".", b".", b"..", b"...", b".QUIT", b".a", b"a", b"", b"QUIT", b"RSET",
              b"MAIL FROM:<x@y>", b"DATA", b"a.b", b"x" * 7, b". ", b"h: v")
     lines = []
     total = 0
     nlines = rng.randint(1, 24)
-    if rng.random() < 0.5:
+    if mode == "elsewhere":
+        lines.append(rng.choice((b"a", b"", b"QUIT", b"h: v", b"a.")))
+        total += len(lines[-1]) + 1
+    elif rng.random() < 0.5:
         lines.append(rng.choice((b".", b"..", b".a", b".QUIT")))
         total += len(lines[-1]) + 1
     for _ in range(nlines):
         ln = rng.choice(kinds)
-        if ln[:1] == b"." and lines and rng.random() < 0.6:
-            # pad the previous line so that this dot-line starts on a read boundary
-            pad = (-total) % k
+        if ln[:1] == b"." and lines:
+            pad = 0
+            if mode == "aligned" and rng.random() < 0.6:
+                # pad the previous line so that this dot-line starts on a read boundary
+                pad = (-total) % k
+            elif mode == "elsewhere" and total % k == 0:
+                pad = 1
             lines[-1] = lines[-1] + b"p" * pad
             total += pad
         lines.append(ln)
@@ -566,8 +581,9 @@ class EndToEndAllChunkings(Bounded):
     title = ("lines received by the server-side IMessage (and replies, eom timing, delivery calls) vs the body's "
              "lines, real SMTPClient+FileSender -> real ESMTP, every chunking of the client's reads")
     scope = ("quick: the empty body and every LF-terminated body over {'.', 'a', LF} of length <= 6, alone and after "
-             "the header block 'Subject: s\\n\\n' (lengths <= 5 there); every composition of the body into read "
-             "chunks (all 2^(n-1)); DATA payload delivered whole and one octet at a time.  thorough: lengths <= 8 "
+             "the header block 'Subject: s\\n\\n' (lengths <= 5 there; header block read in one piece, octet by "
+             "octet, or with its last LF joined to the next read); every composition of the body into read "
+             "chunks (all 2^(n-1)); DATA payload delivered whole and one octet at a time.  thorough: lengths <= 7 "
              "(<= 6 after the header block), additionally payload segments of 2 and 3 octets")
     functions = ["SMTPClient.smtpState_data", "SMTPClient.transformChunk", "SMTPClient.finishedFileTransfer",
                  "FileSender.beginFileTransfer", "FileSender.resumeProducing", "SMTP.dataLineReceived",
@@ -576,7 +592,7 @@ class EndToEndAllChunkings(Bounded):
     def cases(self, tier, rng):
         quick = tier == "quick"
         segs = [("whole",), ("each",)] if quick else [("whole",), ("each",), ("size", 2), ("size", 3)]
-        plain = 6 if quick else 8
+        plain = 6 if quick else 7
         after = 5 if quick else 6
         for body in bodies_over(b".a\n", plain):
             for chunks in compositions(len(body)):
@@ -609,7 +625,7 @@ class EndToEndLinesAndSegments(Bounded):
     prop = "C40"
     title = ("same end-to-end comparison over bodies built from whole lines ('.', '..', '.a', 'QUIT', 'H: .', ...), "
              "uniform read sizes and every 2-way read split, with every 2-way split of the DATA payload")
-    scope = ("quick: bodies of <= 3 lines from {'', '.', '..', '.a', 'a', 'a.', 'QUIT', 'H: .'}; reads: uniform size "
+    scope = ("quick: bodies of <= 3 lines from LINE_TOKENS = {'', '.', '..', '.a', 'a', 'a.', 'QUIT', 'H: .', ' .', '. '}; reads: uniform size "
              "k for every k in 1..len, and every 2-way split, each with payload whole / one octet at a time; plus, "
              "for reads of size 1, len and every 2-way read split that starts a read on a line start, every 2-way "
              "split of the DATA payload (bodies <= 2 lines).  thorough: <= 4 lines, 2-way payload splits for <= 3 "
@@ -647,18 +663,20 @@ class EndToEndRandom(Bounded):
     prop = "C40"
     title = ("same end-to-end comparison over seeded random larger bodies rich in dot-lines placed at the start, on "
              "read-chunk boundaries and elsewhere")
-    scope = ("seeded random: bodies of 1..25 lines from dot-lines, command look-alikes and text, previous lines "
-             "padded so that dot-lines start on multiples of the read size; read size uniform k in 1..40 or one "
-             "read; random payload segmentation (whole, octets, fixed size, up to 6 random cuts); 400 cases quick, "
-             "20000 thorough")
+    scope = ("seeded random: bodies of 1..25 lines from dot-lines, command look-alikes and text; one third with "
+             "dot-lines padded onto multiples of the read size (and possibly opening the body), one third with "
+             "every dot-line strictly inside a read, one third unarranged; read size uniform k in 1..40 or one "
+             "read; random payload segmentation (whole, octets, fixed size, up to 6 random cuts); 600 cases quick, "
+             "30000 thorough")
     functions = EndToEndAllChunkings.functions
 
     def cases(self, tier, rng):
-        n = 400 if tier == "quick" else 20000
-        for _ in range(n):
-            k = rng.randint(1, 40)
-            body = random_body(rng, k)
-            if rng.random() < 0.1:
+        n = 600 if tier == "quick" else 30000
+        for i in range(n):
+            mode = ("aligned", "elsewhere", "mixed")[i % 3]
+            k = rng.randint(2 if mode == "elsewhere" else 1, 40)
+            body = random_body(rng, k, mode)
+            if mode == "mixed" and rng.random() < 0.3:
                 chunks = (len(body),)
             else:
                 chunks = uniform(len(body), k)
@@ -677,7 +695,7 @@ class ClientWire(Bounded):
     prop = "C40"
     title = ("DATA payload written by the real SMTPClient/FileSender, decoded by a reference RFC 5321 4.5.2 receiver, "
              "vs the body's lines; the terminating '.' line must be the last thing in the payload")
-    scope = ("every non-empty LF-terminated body over {'.', 'a', LF} of length <= 7 (quick) / 9 (thorough) in every "
+    scope = ("every non-empty LF-terminated body over {'.', 'a', LF} of length <= 7 (quick) / 8 (thorough) in every "
              "composition into read chunks; bodies of <= 3 (4) lines from the line tokens with uniform read sizes "
              "1..len.  The empty body is left to the end-to-end classes (RFC 5321 does not say how zero lines are "
              "framed)")
@@ -686,7 +704,7 @@ class ClientWire(Bounded):
 
     def cases(self, tier, rng):
         quick = tier == "quick"
-        for body in bodies_over(b".a\n", 7 if quick else 9):
+        for body in bodies_over(b".a\n", 7 if quick else 8):
             if not body:
                 continue
             for chunks in compositions(len(body)):
